@@ -573,7 +573,11 @@ func signChanges() []change {
 	add("signer-local-wrong-key-type", false, -1, func(r *areq) { r.S.local = true; r.S.key = Key("rsa2048a") })
 	add("signer-local-wrong-curve", false, -1, func(r *areq) { r.S.local = true; r.S.key = Key("ec384") })
 	add("chain-ts-leaf", false, -1, func(r *areq) { r.S.chain = basePlan(2, "ts", "ec256b").build().xs })
-	add("chain-reversed", false, -1, func(r *areq) { r.S.chain = []*x509.Certificate{r.S.chain[len(r.S.chain)-1], r.S.chain[0]} })
+	add("chain-reversed", false, -1, func(r *areq) {
+		if len(r.S.chain) > 0 {
+			r.S.chain = []*x509.Certificate{r.S.chain[len(r.S.chain)-1], r.S.chain[0]}
+		}
+	})
 	add("chain-3", true, -1, func(r *areq) { r.S.chain = basePlan(3, "cs", "ec256b").build().xs })
 	add("chain-1-selfsigned", true, -1, func(r *areq) { r.S.chain = basePlan(1, "cs", "ec256b").build().xs })
 	add("chain-leaf-other-key", false, -1, func(r *areq) { r.S.chain = basePlan(2, "cs", "ec384").build().xs })
